@@ -358,6 +358,19 @@ func runC05(t *rapid.T, st *vfhelp.Stats) {
 	if staleApplied > 0 {
 		labels = append(labels, "stale-copy-applied-first")
 	}
+	appliedPerTmpl := map[int]int{}
+	for i, v := range verdicts {
+		if v.Exp == exApplied && meta[i].Tmpl > 0 {
+			appliedPerTmpl[meta[i].Tmpl]++
+		}
+	}
+	for _, c := range appliedPerTmpl {
+		if c > 1 {
+			// only possible across two incarnations of a client id (see assumptions)
+			labels = append(labels, "same-entry-applied-in-two-session-incarnations")
+			break
+		}
+	}
 	if reborn > 0 {
 		labels = append(labels, "session-id-registered-again")
 	}
